@@ -477,6 +477,15 @@ fn p_blte_decompress(b: &[u8], _: &Env) -> Result<Val, String> {
 }
 const SEED_KEY_NAME: u64 = 0x1122_3344_5566_7788;
 const SEED_KEY: [u8; 16] = [7; 16];
+fn p_blte_enc_header(b: &[u8], _: &Env) -> Result<Val, String> {
+    // the public BinRead parser of the encrypted-chunk header (reachable through binrw only)
+    use binrw::BinRead;
+    use cascette_formats::blte::EncryptedHeader;
+    let mut c = std::io::Cursor::new(b);
+    let h = EncryptedHeader::read_options(&mut c, binrw::Endian::Big, ()).map_err(|e| e.to_string())?;
+    let _ = h.key_id();
+    Ok(unit())
+}
 fn p_encoding_blte(b: &[u8], _: &Env) -> Result<Val, String> {
     EncodingFile::parse_blte(b).map(|_| unit()).map_err(|e| e.to_string())
 }
@@ -603,6 +612,7 @@ fn p_build_info(b: &[u8], _: &Env) -> Result<Val, String> {
 static FORMATS: &[Fmt] = &[
     Fmt { name: "blte", decomp: false, text: false, parse: f_blte::parse, rt: Some(f_blte::rt), weight: 6 },
     Fmt { name: "blte_decompress", decomp: true, text: false, parse: p_blte_decompress, rt: None, weight: 6 },
+    Fmt { name: "blte_enc_header", decomp: false, text: false, parse: p_blte_enc_header, rt: None, weight: 2 },
     Fmt { name: "encoding", decomp: false, text: false, parse: f_encoding::parse, rt: Some(f_encoding::rt), weight: 6 },
     Fmt { name: "encoding_blte", decomp: true, text: false, parse: p_encoding_blte, rt: None, weight: 2 },
     Fmt { name: "archive_index", decomp: false, text: false, parse: f_aidx::parse, rt: Some(f_aidx::rt), weight: 6 },
@@ -966,6 +976,14 @@ fn all_seeds(tmp: &Path) -> Vec<Vec<Seed>> {
                 v.extend(bseed("blte_arc4", guarded(|| build_blte_encrypted_seed(true)).unwrap_or_else(Err)));
                 v.extend(fixture_files("tvfs", &|n| n.ends_with(".blte")));
             }
+            "blte_enc_header" => {
+                let mut h = vec![8u8];
+                h.extend_from_slice(&SEED_KEY_NAME.to_le_bytes());
+                h.extend_from_slice(&[4, 1, 2, 3, 4, b'S', 0xAA, 0xBB, 0xCC]);
+                v.push(Seed { name: "builder/enc_header_s".into(), bytes: h.clone(), real: false });
+                h[14] = b'A';
+                v.push(Seed { name: "builder/enc_header_a".into(), bytes: h, real: false });
+            }
             "encoding" => {
                 v.extend(bseed("encoding5", enc_small.clone().and_then(|e| e.build().map_err(es))));
                 v.extend(bseed("encoding40", build_encoding_file(40).and_then(|e| e.build().map_err(es))));
@@ -1156,6 +1174,7 @@ fn layout(fmt: &str) -> Vec<Fld> {
     const BLTE: &[Fld] = &[fb("magic", 0, 4), fb("header_size", 4, 4), fb("flags", 8, 1), fb("chunk_count", 9, 3), fb("c0_csize", 12, 4), fb("c0_dsize", 16, 4)];
     match fmt {
         "blte" | "blte_decompress" | "tvfs_blte" | "encoding_blte" => BLTE.to_vec(),
+        "blte_enc_header" => vec![fb("key_name_size", 0, 1), fb("iv_size", 9, 1), fb("enc_type", 14, 1)],
         "encoding" => vec![
             fb("magic", 0, 2),
             fb("version", 2, 1),
@@ -1727,7 +1746,7 @@ fn bp_build(fmt: &str, ver: u64, es: &[AEntry]) -> Result<Vec<u8>, String> {
                 let locale = if e.a == 1 { LocaleFlags::DEDE } else { LocaleFlags::ENUS };
                 let path = bpath(e.k);
                 // size class: spacing of the FileDataIDs (delta encoding); tag bit 0: named file
-                let fdid = 10 + e.k as u32 * (1 + c_size(e.s).min(100_000) as u32);
+                let fdid = e.k as u32 * 1_000_000 + c_size(e.s).min(100_000) as u32;
                 let named = e.t & 1 != 0 || ver == 1;
                 let content = if named { ContentFlags::INSTALL } else { ContentFlags::INSTALL | ContentFlags::NO_NAME_HASH };
                 b.add_file(FileDataId::new(fdid), ContentKey::from_bytes(bk16(e.k)), if named { Some(path.as_str()) } else { None }, LocaleFlags::new(locale), ContentFlags::new(content));
@@ -1932,7 +1951,7 @@ fn bp_extract(fmt: &str, ver: u64, bytes: &[u8]) -> Result<Vec<Value>, String> {
                     let k = a_key16(r.content_key.as_bytes());
                     let ku = k.max(0) as u64;
                     let fd = r.file_data_id.get();
-                    let s = (0..4i64).find(|&s| fd == 10 + ku as u32 * (1 + c_size(s as u64).min(100_000) as u32)).unwrap_or(-1);
+                    let s = (0..4i64).find(|&s| fd == ku as u32 * 1_000_000 + c_size(s as u64).min(100_000) as u32).unwrap_or(-1);
                     let a = if b.locale_flags().value() == LocaleFlags::DEDE {
                         1
                     } else if b.locale_flags().value() == LocaleFlags::ENUS {
@@ -1945,8 +1964,7 @@ fn bp_extract(fmt: &str, ver: u64, bytes: &[u8]) -> Result<Vec<Value>, String> {
                         None if ver != 1 && b.content_flags().value & ContentFlags::NO_NAME_HASH != 0 => 0,
                         _ => -1,
                     };
-                    // V1 always carries names: the program's named bit is not represented
-                    out.push(ae(k, s, a, if ver == 1 && t == 1 { -2 } else { t }));
+                    out.push(ae(k, s, a, t));
                 }
             }
         }
@@ -1978,7 +1996,7 @@ fn bp_extract(fmt: &str, ver: u64, bytes: &[u8]) -> Result<Vec<Value>, String> {
                                 _ => -1,
                             }
                         };
-                        out.push(ae(if k == kk { k } else { -1 }, a_size(u64::from(c.encoded_size)), a, if ver == 1 && t == 1 { -2 } else { t }));
+                        out.push(ae(if k == kk { k } else { -1 }, a_size(u64::from(c.encoded_size)), a, t));
                     }
                 }
             }
@@ -2114,6 +2132,7 @@ fn run_bprog(p: &Value, env: &Env) -> Value {
 // parent: planning, child management, events
 // ------------------------------------------------------------------------------------------------
 struct Job {
+    vector: Option<Value>,
     idx: u64,
     fi: usize,
     src: &'static str,
@@ -2184,7 +2203,7 @@ impl Plan {
         if j < self.fixtures.len() {
             let (fi, si) = self.fixtures[j];
             let s = &self.seeds[fi][si];
-            return Job { idx: i, fi, src: "fixture", seed: s.name.clone(), how: String::new(), bytes: s.bytes.clone(), exact: s.real, prog: None };
+            return Job { vector: None, idx: i, fi, src: "fixture", seed: s.name.clone(), how: String::new(), bytes: s.bytes.clone(), exact: s.real, prog: None };
         }
         j -= self.fixtures.len();
         if j < self.model.len() {
@@ -2210,13 +2229,13 @@ impl Plan {
             if v["seal"].as_str() == Some("fix") && reseal(FORMATS[fi].name, &mut b) {
                 how.push_str("reseal,");
             }
-            return Job { idx: i, fi, src: "model", seed: s.name.clone(), how, bytes: b, exact: false, prog: None };
+            return Job { vector: Some(v["v"].clone()), idx: i, fi, src: "model", seed: s.name.clone(), how, bytes: b, exact: false, prog: None };
         }
         j -= self.model.len();
         if j < self.bprogs.len() {
             let p = self.bprogs[j].clone();
             let fi = fmt_index(p["fmt"].as_str().unwrap_or("")).unwrap_or(0);
-            return Job { idx: i, fi, src: "bprog", seed: String::new(), how: String::new(), bytes: Vec::new(), exact: false, prog: Some(p) };
+            return Job { vector: None, idx: i, fi, src: "bprog", seed: String::new(), how: String::new(), bytes: Vec::new(), exact: false, prog: Some(p) };
         }
         j -= self.bprogs.len();
         let mut rng = Rng::new(self.seed.wrapping_mul(0x1_0000_0001).wrapping_add(j as u64).wrapping_mul(0xD6E8_FEB8_6659_FD93));
@@ -2236,7 +2255,7 @@ impl Plan {
         let si = if !small.is_empty() && rng.chance(7, 10) { *rng.pick(&small) } else { rng.below(ss.len() as u64) as usize };
         let oi = rng.below(ss.len() as u64) as usize;
         let (bytes, how) = mutate(&mut rng, &ss[si].bytes, &FORMATS[fi], &ss[oi].bytes);
-        Job { idx: i, fi, src: "mut", seed: ss[si].name.clone(), how, bytes, exact: false, prog: None }
+        Job { vector: None, idx: i, fi, src: "mut", seed: ss[si].name.clone(), how, bytes, exact: false, prog: None }
     }
 }
 
@@ -2463,6 +2482,10 @@ fn events_of(job: &Job, ex: &Exec, rerun: bool, first: Option<&Value>, st: &mut 
     e.insert("decomp".into(), json!(f.decomp));
     e.insert("h".into(), header_fields(f.name, &job.bytes));
     e.insert("rerun".into(), json!(rerun));
+    if let Some(v) = &job.vector {
+        e.insert("v".into(), v.clone());
+    }
+    e.insert("more".into(), json!(ex.p.as_ref().is_some_and(|p| p["more"].as_bool().unwrap_or(false))));
     if let Some(fd) = first {
         e.insert("first".into(), fd["kind"].clone());
     }
@@ -2640,11 +2663,17 @@ fn parent_main(args: &[String]) {
         let obj = if obj.get("input").is_some() { obj["input"].clone() } else { obj };
         let fi = fmt_index(obj["fmt"].as_str().unwrap_or("")).expect("format of the replay file");
         let job = match obj.get("prog") {
-            Some(p) if !p.is_null() => Job { idx: 0, fi, src: "bprog", seed: String::new(), how: String::new(), bytes: Vec::new(), exact: false, prog: Some(p.clone()) },
+            Some(p) if !p.is_null() => Job { vector: None, idx: 0, fi, src: "bprog", seed: String::new(), how: String::new(), bytes: Vec::new(), exact: false, prog: Some(p.clone()) },
             _ => Job {
+                vector: obj.get("v").filter(|v| v.is_object()).cloned(),
                 idx: obj["id"].as_u64().unwrap_or(0),
                 fi,
-                src: "replay",
+                src: match obj["src"].as_str() {
+                    Some("model") => "model",
+                    Some("fixture") => "fixture",
+                    Some("mut") => "mut",
+                    _ => "replay",
+                },
                 seed: obj["seed"].as_str().unwrap_or("").to_string(),
                 how: obj["how"].as_str().unwrap_or("").to_string(),
                 bytes: hex::decode(obj["hex"].as_str().unwrap_or("")).expect("hex input"),
@@ -2677,7 +2706,7 @@ fn parent_main(args: &[String]) {
     let plan = Plan::new(&tmp, vectors, bprogs, nmut, seed_from_env(), only, has_flag(args, "--no-fixtures"));
     if let Some(i) = arg(args, "--dump-job").and_then(|s| s.parse::<u64>().ok()) {
         let j = plan.job(i);
-        println!("{}", json!({"id": j.idx, "fmt": FORMATS[j.fi].name, "src": j.src, "seed": j.seed, "how": j.how, "exact": j.exact, "hex": hex::encode(&j.bytes), "prog": j.prog}));
+        println!("{}", json!({"id": j.idx, "fmt": FORMATS[j.fi].name, "src": j.src, "seed": j.seed, "how": j.how, "exact": j.exact, "hex": hex::encode(&j.bytes), "prog": j.prog, "v": j.vector}));
         let _ = std::fs::remove_dir_all(&tmp);
         return;
     }
